@@ -134,7 +134,7 @@ var corruptChars = []string{"", "\x00", "\t", "\n", "\x7f", "\xc3\xa9", "\xff", 
 
 func runC17(c *core.Ctx, ck *Check) {
 	evalWitnesses(c, ck)
-	nBase := c.Scale(18, 450)
+	nBase := c.Scale(40, 1200)
 	type job struct {
 		scheme string
 		k      int
